@@ -10,11 +10,12 @@ REPO = os.environ.get('VERIF_REPO', '/repo')
 BUILD = os.path.join(V, 'build')
 
 def cfg_name(c):
-    return 'seq_s%d_l%d_k%d_n%d' % (c['spb'], c['lbits'], c['kind'], c['nothrow'])
+    return 'seq_s%d_l%d_k%d_n%d' % (c['spb'], c['lbits'], c['kind'], c['nothrow']) + ('_np' if c.get('noprop') else '')
 
-def mkcfg(spb, lbits, kind, nothrow=1):
+def mkcfg(spb, lbits, kind, nothrow=1, noprop=0):
+    """noprop: the harness allocator does not propagate on copy / move assignment and swap (judge-only scripts)"""
     return dict(spb=spb, lbits=lbits, kind=kind, nothrow=nothrow if kind == 1 else 1,
-                simple=1 if kind == 0 else 0, destructive=0 if kind == 0 else 1)
+                simple=1 if kind == 0 else 0, destructive=0 if kind == 0 else 1, noprop=noprop)
 
 QUICK_CFGS = [mkcfg(1, 1, 0), mkcfg(2, 1, 0), mkcfg(4, 2, 0), mkcfg(2, 2, 1, 1), mkcfg(3, 1, 1, 0), mkcfg(8, 1, 0),
               mkcfg(4, 16, 0)]
@@ -27,6 +28,8 @@ def build_one(c, extra_flags=()):
            '-DH_KIND=%d' % c['kind'], '-DH_NOTHROW=%d' % c['nothrow'], '-DLIBCUCKOO_VERIF=1']
     if c['lbits'] != 16:
         cmd.append('-DLIBCUCKOO_VERIF_MAX_NUM_LOCKS=%d' % (1 << c['lbits']))
+    if c.get('noprop'):
+        cmd.append('-DH_NOPROP=1')
     cmd += list(extra_flags) + [os.path.join(V, 'harness', 'seq.cc'), '-o', out, '-lpthread']
     r = subprocess.run(cmd, capture_output=True, text=True)
     return (c, out, r.returncode, r.stderr[-3000:])
